@@ -481,6 +481,12 @@ class Model(CallsMixin, BuiltinsMixin):
             out.nonneg = a.nonneg
         if sym == '/' and b.note == 'norm' and b.src is a:
             out.note = 'unitscale'
+        if a.k == 'arr' and a.cnt is not None and b.k == 'int' and \
+                b.p is not None:
+            if sym == '/':
+                out.cnt = (a.cnt[0], a.cnt[1] * b.p)
+            elif sym == '*':
+                out.cnt = (a.cnt[0] * b.p, a.cnt[1])
         return out
 
     def lo_of(self, v):
@@ -556,6 +562,8 @@ class Model(CallsMixin, BuiltinsMixin):
             out.unit = ua + ub
         if a.deg is not None and b.deg is not None:
             out.deg = _dadd(a.deg, b.deg, 1)
+        if a.cnt is not None and b.cnt is not None:
+            out.cnt = (a.cnt[0] * b.cnt[0], a.cnt[1] * b.cnt[1])
         out.orth = self.orth_matmul(a, b)
         # Gram matrices  A @ A.T  /  A.T @ A  of one array
         if isinstance(node, ast.BinOp) and len(da) == 2 and len(db) == 2:
@@ -742,7 +750,12 @@ class Model(CallsMixin, BuiltinsMixin):
             lay = None
             if base.lay is not None:
                 lay = tuple(reversed(base.lay))
-            return base.copy(dims=tuple(reversed(base.dims)), orth=o, lay=lay)
+            dl = base.delta
+            if isinstance(dl, tuple):
+                nd_ = len(base.dims)
+                dl = tuple(sorted((nd_ - 1 - dl[0], nd_ - 1 - dl[1])))
+            return base.copy(dims=tuple(reversed(base.dims)), orth=o, lay=lay,
+                             delta=dl)
         if attr == 'ndim':
             if base.dims is None:
                 return INT()
@@ -935,6 +948,7 @@ class Model(CallsMixin, BuiltinsMixin):
         r.unit = base.unit
         r.deg = base.deg
         r.nonneg = base.nonneg
+        r.cnt = base.cnt
         if isinstance(base.delta, tuple) and not adv and \
                 base.delta[0] in axmap and base.delta[1] in axmap:
             r.delta = (axmap[base.delta[0]], axmap[base.delta[1]])
